@@ -41,6 +41,13 @@ func gen(t *rapid.T) Case {
 	s.Cfg = prog.Config{Protocol: rapid.SampledFrom(prog.Protocols).Draw(t, "protocol"), Codec: "proto", Kind: prog.Bidi}
 	s.Transport = rapid.SampledFrom([]string{"mem", "h2c"}).Draw(t, "transport")
 	s.Delays = genDelays(t)
+	if rapid.IntRange(0, 3).Draw(t, "slowReqBody") == 0 {
+		// the transport's request-body writer lags behind
+		s.ReqBodyDelayNS = rapid.SampledFrom([]int64{1e6, 100e6}).Draw(t, "reqBodyDelay")
+		// … and the transport-level end of the response comes later than the
+		// protocol-level terminator (work done after the handler returned)
+		s.HandlerExitDelayNS = rapid.SampledFrom([]int64{0, 50e6, 500e6}).Draw(t, "handlerExitDelay")
+	}
 	sizes := []int{0, 10, 3000}
 	switch c.Family {
 	case "closes":
@@ -167,7 +174,10 @@ func check(tt *testing.T, c Case) (pbt.Info, error) {
 	if len(s.Delays) > 0 {
 		info.Label("with-delays")
 	}
-	info.NonTrivial = c.Family == "early-exit" || c.Family == "cancel" || len(s.Delays) > 0
+	info.NonTrivial = c.Family == "early-exit" || c.Family == "cancel" || len(s.Delays) > 0 || s.ReqBodyDelayNS > 0
+	if s.ReqBodyDelayNS > 0 {
+		info.Label("slow-request-body-reads")
+	}
 	tr, err := sched.Run(tt, s)
 	where := fmt.Sprintf("%s %s/%s over %s, handler %+v, client ops %+v msgs %d, delays %v", c.Family, s.Cfg.Protocol, s.Cfg.Kind, s.Transport, s.Handler, s.Client.Ops, len(s.Client.Msgs), s.Delays)
 	if err != nil {
@@ -293,7 +303,7 @@ func firstLines(s string, n int) string {
 
 var spec = pbt.Spec[Case]{
 	Prop: "C14", Name: "programs", Gen: gen, Check: check,
-	Rule: "client/handler program pairs from five families (closing programs; ping-pong; handler exits early while the client keeps sending up to 6×200 KB; cancel followed by arbitrary further operations; typed unary/client/server calls) × 3 protocols × {in-memory transport, real net/http h2c and HTTP/1.1 over net.Pipe} with 0..2 virtual delays (1 ms..2 s) at the library's named yield points, all inside a synctest bubble; oracle: no deadlock (every API call returned), no goroutine with a library frame left after a 30 s virtual settle period, response body closed, draining handler sees io.EOF, later Sends fail only with io.EOF-wrapping errors and monotonically, the next Receive reports the handler's actual outcome, Receive errors are sticky; non-trivial = early-exit or cancel family, or ≥1 injected delay",
+	Rule: "client/handler program pairs from five families (closing programs; ping-pong; handler exits early while the client keeps sending up to 6×200 KB; cancel followed by arbitrary further operations; typed unary/client/server calls) × 3 protocols × {in-memory transport, real net/http h2c and HTTP/1.1 over net.Pipe} with 0..2 virtual delays (1 ms..2 s) at the library's named yield points and optionally delayed request-body reads by the transport, all inside a synctest bubble; oracle: no deadlock (every API call returned), no goroutine with a library frame left after a 30 s virtual settle period, response body closed, draining handler sees io.EOF, later Sends fail only with io.EOF-wrapping errors and monotonically, the next Receive reports the handler's actual outcome, Receive errors are sticky; non-trivial = early-exit or cancel family, or ≥1 injected delay",
 }
 
 func TestPrograms(t *testing.T) { pbt.Run(t, spec) }
